@@ -17,6 +17,8 @@ from lib.common import OblResult, Failure, DISCHARGED, REFUTED, UNDECIDED, ERROR
 LEDGER = os.path.join(common.VERIF, 'ledger', 'obligations.lock.json')
 GENERIC_FAMILIES = ('frame.', 'no-exception.', 'type:', 'pre:')
 
+WIDE = {'C08': ('no-exception.', 'pre:', 'raises_')}
+
 TRUSTED_BASE = [
     'PyVC (self-built VC generator, /verif/pyvc): encoding of Python semantics per DESIGN.md 2.4',
     'z3 5.1.0 (z3-solver wheel) as the discharging back end; /usr/bin/cvc5 and /usr/bin/z3 4.8.12 as cross-checks in the thorough tier',
@@ -32,6 +34,14 @@ ASSUMPTIONS = [
     'no concurrency inside a call; no reflection/monkey-patching; attribute lookup = instance dict, class, property',
     'dict preserves insertion order; list.index/in use identity-or-__eq__',
     'fresh objects are distinct from every object reachable in the pre-state (allocation counter alloc0)',
+    'A-ALLOC: a callee under contract allocates fewer than 2^20 objects',
+    'A-EXACT: objects have exactly the classes of contracts/types.py (no user subclasses of model classes; '
+    'renderer classes are the two default ones wherever a contract fixes cls)',
+    'A-MSG: building the message of a raised exception (f-string with str()/repr() of model objects) succeeds and has no effect',
+    'machine arithmetic: none in pydbml (Python int); float only passes through uninterpreted (float(text), str(f))',
+    'termination is not proved: for-loops range over finite lists; recursion (pyparsing, join_table.sql) is outside the engine',
+    'pyparsing itself (matching, backtracking, ParseResults construction) is external and unverified: parse actions are '
+    'verified against a symbolic ParseResults whose names are those the grammar can produce',
 ]
 
 
@@ -124,6 +134,12 @@ def results_for_property(prop: str, tier: str, only: Optional[str] = None,
     contracts = load_all_contracts()
     targets = sorted(t for t, c in contracts.items() if prop in c.property_ids and not c.inline
                      and (tier == 'thorough' or c.tier == 'quick'))
+    # C08 ("no internal error") is made of the exception-freedom obligations of *every* verified function:
+    # undeclared exceptions, callee preconditions (which guard partial operations), declared raises
+    wide = WIDE.get(prop)
+    own = set(targets)
+    if wide:
+        targets = sorted(t for t, c in contracts.items() if not c.inline and (tier == 'thorough' or c.tier == 'quick'))
     if only:
         targets = [t for t in targets if only in t] or targets
     raw = run_targets(targets, tier)
@@ -176,6 +192,8 @@ def results_for_property(prop: str, tier: str, only: Optional[str] = None,
             continue
         nclauses = len(r['clauses'])
         for cname, c in r['clauses'].items():
+            if wide and t not in own and not cname.startswith(wide):
+                continue
             oid = f'{prop}.P.{t}.{cname}'
             o = OblResult(id=oid, kind='P', verdict=DISCHARGED, backend='z3-5.1.0', function=t,
                           seconds=round(r['solver_s'] / max(1, nclauses), 4))
@@ -215,10 +233,22 @@ def results_for_property(prop: str, tier: str, only: Optional[str] = None,
                 o.verdict = UNDECIDED
                 o.detail = c['detail']
             results.append(o)
+        if wide:
+            # one summary obligation per function: every explored path ends in a return or in a declared/allowed
+            # exception (an undeclared exception on any path is a clause `no-exception.<Exc>` of its own, above)
+            bad = [cn for cn, c in r['clauses'].items() if cn.startswith('no-exception.') and c['verdict'] != 'discharged']
+            results.append(OblResult(
+                id=f'{prop}.P.{t}.exception-freedom', kind='P', backend='pyvc+z3-5.1.0', function=t,
+                verdict=DISCHARGED if not bad else UNDECIDED,
+                detail=(f'{r["paths"]} paths explored; none ends in an undeclared exception' if not bad else
+                        'see ' + ', '.join(bad))))
     meta = {
         'functions_under_contract': fuc,
         'trusted_base': TRUSTED_BASE,
-        'assumptions': ASSUMPTIONS + [f'note: {n}' for n in notes],
+        'assumptions': ASSUMPTIONS + [f'note: {n}' for n in notes]
+        + [f'assumed contract (callee not verified, tier none): {u}' for u in sorted(used)
+           if u in contracts and contracts[u].tier == 'none']
+        + [f'inlined callee (body executed, no contract): {u}' for u in sorted(inlined)],
         'extra': {
             'inlined_callees': sorted(inlined),
             'callee_contracts_used': sorted(used),
